@@ -513,12 +513,57 @@ func superBlocks(r *mc.Run) {
 						if string(got.Bytes()) != string(raw) {
 							r.Violate("super-block-reencode", "bytes differ after decode/encode", wit, nil)
 						}
+						// a torn super block (any proper prefix of the image) is not a valid encoding: it must be
+						// rejected, not decoded as if zero-padded.  Every prefix for the small images, the header
+						// boundary region and the tail for the large extra.
+						if rev == 1 && ttl == "3m" {
+							var cuts []int
+							if len(raw) <= 64 {
+								for c := 0; c < len(raw); c++ {
+									cuts = append(cuts, c)
+								}
+							} else {
+								cuts = []int{0, 1, 7, 8, 9, len(raw) / 2, len(raw) - 1}
+							}
+							for _, c := range cuts {
+								if err := os.WriteFile(p, raw[:c], 0644); err != nil {
+									mc.Fatal("write: %v", err)
+								}
+								f2, _ := os.Open(p)
+								df2 := backend.NewDiskFile(f2)
+								g2, err2 := super_block.ReadSuperBlock(df2)
+								df2.Close()
+								r.Case(fmt.Sprintf("sb-torn|extra=%d|cutclass=%d|err=%v", ei, cutClass(c, len(raw)), err2 != nil))
+								if err2 == nil {
+									where := "in-header"
+									if c >= 8 {
+										where = "in-extra"
+									}
+									r.Violate("torn-super-block-accepted:"+where, fmt.Sprintf("%d of %d bytes decoded without error as %+v", c, len(raw), g2),
+										w{"domain": "super-block-torn", "in": fmt.Sprintf("v%d rp=%03d extra=%d cut=%d", ver, pb, ei, c)}, nil)
+								}
+							}
+						}
 					}
 				}
 			}
 		}
 	}
 	r.Sample("super-block", w{"version": 3, "placement": "012", "ttl": "3m", "revision": 65535, "extra": "ErasureCoding{10,4}"})
+}
+
+func cutClass(c, n int) int {
+	switch {
+	case c == 0:
+		return 0
+	case c < 8:
+		return 1
+	case c == 8:
+		return 2
+	case c == n-1:
+		return 4
+	}
+	return 3
 }
 
 func manyIds(n int) []uint32 {
